@@ -2,7 +2,7 @@
 
    1. `mono_all`: no interpreter function ever shrinks a store -- the three next-free counters
       (cells, tables, closures) of the state carried by ANY result (normal, error, out of fuel,
-      unsupported) are at least those of the input state.  Proved for all 24 mutually
+      unsupported) are at least those of the input state -- and none changes the dialect.  Proved for all 24 mutually
       recursive functions at once by induction on the fuel.
    2. `local_fresh`: a successful `local x1, ..., xk = es` leaves every xi bound to a cell that
       was not allocated in the state before the statement (cells are never reused: allocation
@@ -16,12 +16,13 @@ Definition res_state {A : Type} (r : res A) : state :=
   match r with ROk _ s => s | RErr _ s => s | RFuel s => s | RUnsup _ s => s end.
 
 Definition st_le (a b : state) : Prop :=
-  (s_ncell a <= s_ncell b)%positive /\ (s_ntab a <= s_ntab b)%positive /\ (s_nclo a <= s_nclo b)%positive.
+  (s_ncell a <= s_ncell b)%positive /\ (s_ntab a <= s_ntab b)%positive /\ (s_nclo a <= s_nclo b)%positive
+  /\ s_dialect a = s_dialect b.
 
 Lemma st_le_refl : forall a, st_le a a.
-Proof. intros; unfold st_le; lia. Qed.
+Proof. intros; unfold st_le; repeat split; try lia. Qed.
 Lemma st_le_trans : forall a b c, st_le a b -> st_le b c -> st_le a c.
-Proof. unfold st_le; intros; lia. Qed.
+Proof. unfold st_le; intros; repeat split; try lia; intuition congruence. Qed.
 
 Lemma bind_le : forall (A B : Type) s0 (r : res A) (f : A -> state -> res B),
   st_le s0 (res_state r) ->
@@ -31,12 +32,12 @@ Proof. intros A B s0 r f H Hf. destruct r; cbn [bind res_state] in *; auto. Qed.
 
 Ltac le_now :=
   unfold st_le, raw_set_in, set_cell, alloc_cell, put_table, alloc_table, alloc_closure, emit_line in *;
-  cbn [s_ncell s_ntab s_nclo fst snd] in *; lia.
+  cbn [s_ncell s_ntab s_nclo s_dialect fst snd] in *; repeat split; try lia; intuition congruence.
 
 Lemma set_cell_le : forall s0 st c v, st_le s0 st -> st_le s0 (set_cell st c v).
-Proof. intros. unfold st_le, set_cell in *. cbn [s_ncell s_ntab s_nclo] in *. lia. Qed.
+Proof. intros; le_now. Qed.
 Lemma put_table_le : forall s0 st i t, st_le s0 st -> st_le s0 (put_table st i t).
-Proof. intros. unfold st_le, put_table in *. cbn [s_ncell s_ntab s_nclo] in *. lia. Qed.
+Proof. intros; le_now. Qed.
 Lemma raw_set_in_le : forall s0 st i k v, st_le s0 st -> st_le s0 (raw_set_in st i k v).
 Proof. intros; le_now. Qed.
 Lemma emit_line_le : forall s0 st l, st_le s0 st -> st_le s0 (emit_line st l).
@@ -98,31 +99,36 @@ Ltac mono_step :=
 
 Lemma num_arg_le : forall s0 i f args st, st_le s0 st -> st_le s0 (res_state (num_arg i f args st)).
 Proof. intros; unfold num_arg; repeat mono_step. Qed.
+Lemma numf_arg_le : forall s0 i f args st, st_le s0 st -> st_le s0 (res_state (numf_arg i f args st)).
+Proof. intros; unfold numf_arg; repeat mono_step. Qed.
 Lemma opt_num_arg_le : forall s0 i f args d st, st_le s0 st -> st_le s0 (res_state (opt_num_arg i f args d st)).
 Proof. intros; unfold opt_num_arg; destruct (arg i args); cbn [res_state]; try assumption; apply num_arg_le; assumption. Qed.
 Lemma str_arg_le : forall s0 i f args st, st_le s0 st -> st_le s0 (res_state (str_arg i f args st)).
 Proof. intros; unfold str_arg; repeat mono_step. Qed.
 Lemma tab_arg_le : forall s0 i f args st, st_le s0 st -> st_le s0 (res_state (tab_arg i f args st)).
 Proof. intros; unfold tab_arg; repeat mono_step. Qed.
-Lemma fold_num_le : forall rest s0 f fname i acc st, st_le s0 st -> st_le s0 (res_state (fold_num f fname i acc rest st)).
+Lemma fold_num_le : forall rest s0 f fname i acc st,
+  st_le s0 st -> st_le s0 (res_state (fold_num f fname i acc rest st)).
 Proof. induction rest; intros; cbn [fold_num]; repeat mono_step. apply IHrest; assumption. Qed.
 Lemma chars_of_le : forall vs s0 i st, st_le s0 st -> st_le s0 (res_state (chars_of i vs st)).
 Proof.
   induction vs; intros; cbn [chars_of]; repeat mono_step.
   apply IHvs; assumption.
 Qed.
-Lemma arith_num_le : forall s0 op x y st, st_le s0 st -> st_le s0 (res_state (arith_num op x y st)).
+Lemma arith_num_le : forall s0 op fx x fy y st,
+  st_le s0 st -> st_le s0 (res_state (arith_num op fx x fy y st)).
 Proof. intros; unfold arith_num; repeat mono_step. Qed.
 
 Ltac arg_step :=
   match goal with
   | |- st_le _ (res_state (num_arg _ _ _ _)) => apply num_arg_le
+  | |- st_le _ (res_state (numf_arg _ _ _ _)) => apply numf_arg_le
   | |- st_le _ (res_state (opt_num_arg _ _ _ _ _)) => apply opt_num_arg_le
   | |- st_le _ (res_state (str_arg _ _ _ _)) => apply str_arg_le
   | |- st_le _ (res_state (tab_arg _ _ _ _)) => apply tab_arg_le
   | |- st_le _ (res_state (fold_num _ _ _ _ _ _)) => apply fold_num_le
   | |- st_le _ (res_state (chars_of _ _ _)) => apply chars_of_le
-  | |- st_le _ (res_state (arith_num _ _ _ _)) => apply arith_num_le
+  | |- st_le _ (res_state (arith_num _ _ _ _ _ _)) => apply arith_num_le
   end; finish_le.
 
 Lemma pure_builtin_le : forall s0 b args st, st_le s0 st -> st_le s0 (res_state (pure_builtin b args st)).
@@ -157,7 +163,8 @@ Record mono (n : nat) : Prop := mkMono {
   m_exec_block : forall s0 e seen b st, st_le s0 st -> st_le s0 (res_state (exec_block n e seen b st));
   m_exec_while : forall s0 e c b st, st_le s0 st -> st_le s0 (res_state (exec_while n e c b st));
   m_exec_repeat : forall s0 e b c st, st_le s0 st -> st_le s0 (res_state (exec_repeat n e b c st));
-  m_exec_numfor : forall s0 e x i h d b st, st_le s0 st -> st_le s0 (res_state (exec_numfor n e x i h d b st));
+  m_exec_numfor : forall s0 e x fl i h d b st,
+    st_le s0 st -> st_le s0 (res_state (exec_numfor n e x fl i h d b st));
   m_exec_genfor : forall s0 e xs f s c b st, st_le s0 st -> st_le s0 (res_state (exec_genfor n e xs f s c b st))
 }.
 
@@ -185,10 +192,10 @@ Ltac use_ih IH :=
   | |- st_le _ (res_state (exec_block _ _ _ _ _)) => apply (m_exec_block _ IH)
   | |- st_le _ (res_state (exec_while _ _ _ _ _)) => apply (m_exec_while _ IH)
   | |- st_le _ (res_state (exec_repeat _ _ _ _ _)) => apply (m_exec_repeat _ IH)
-  | |- st_le _ (res_state (exec_numfor _ _ _ _ _ _ _ _)) => apply (m_exec_numfor _ IH)
+  | |- st_le _ (res_state (exec_numfor _ _ _ _ _ _ _ _ _)) => apply (m_exec_numfor _ IH)
   | |- st_le _ (res_state (exec_genfor _ _ _ _ _ _ _ _)) => apply (m_exec_genfor _ IH)
   | |- st_le _ (res_state (pure_builtin _ _ _)) => apply pure_builtin_le
-  | |- st_le _ (res_state (arith_num _ _ _ _)) => apply arith_num_le
+  | |- st_le _ (res_state (arith_num _ _ _ _ _ _)) => apply arith_num_le
   end; finish_le.
 
 (* pcall inspects the result of the call *)
